@@ -1,6 +1,7 @@
 package props
 
 import (
+	"math"
 	"fmt"
 	"math/rand"
 	"net/url"
@@ -94,6 +95,10 @@ func runC18(c *core.Ctx) {
 				rng.Shuffle(len(extra), func(a, b int) { extra[a], extra[b] = extra[b], extra[a] })
 				rules = strings.Join(append(extra[:1+rng.Intn(3)], rules), ",")
 			}
+		}
+		if (t.Kind() == reflect.Float64 || t.Kind() == reflect.Float32) && rng.Intn(12) == 0 {
+			v = reflect.New(t).Elem()
+			v.SetFloat(math.Copysign(0, -1)) // negative zero: whatever "empty" means for it, it means it for every carrier
 		}
 		c18Case(res, rng, t, v, rules, i)
 	}
